@@ -238,7 +238,7 @@ def run(ck, ctx):
     # ---------------------------------------------------------------- R06.5 contraction pattern
     def r065():
         es = [n for n in cone if is_ext_call(n, "numpy.einsum") and n.fn is not None and
-              n.fn.qualname == "CphotAng.photon_sum"]
+              n.fn.module.name.endswith("cphotang")]
         if not es:
             ck.note("photon_sum uses no einsum: the contraction pattern is not decided")
             return
@@ -691,7 +691,8 @@ def run(ck, ctx):
             got = {}
             for nm, t_ in tabs.items():
                 subs_ = {(g.vn(n_.args[0]), g.vn(n_.args[1])): n_ for n_ in walk([ret_]) if n_.op == "Subscript" and
-                         n_.args[0] is t_ and n_.fn is not None and n_.fn.qualname == "CphotAng.aerosol_model"}
+                         n_.args[0] is t_ and n_.fn is not None and n_.fn.module.name.endswith("cphotang") and
+                         n_.fn.qualname != "CphotAng.__init__"}
                 ck.ob("R06.9", f"aerosol transmission: one look-up of the {nm} table", len(subs_) == 1, ret_,
                       "CphotAng.aerosol_model", f"{len(subs_)} distinct look-up(s)")
                 if len(subs_) != 1:
@@ -764,7 +765,8 @@ def run(ck, ctx):
             return n
         rings = []
         for n in walk([ret]):
-            if n.op == "Compare" and n.fn is not None and n.fn.qualname == qual and n.attr in ("Lt", "Gt", "LtE", "GtE"):
+            if n.op == "Compare" and n.fn is not None and n.fn.module.name.endswith("cphotang") and \
+                    n.attr in ("Lt", "Gt", "LtE", "GtE"):
                 a, b = n.args
                 if has_arange(a) != has_arange(b):
                     rings.append(n)
